@@ -22,6 +22,10 @@ type Profile struct {
 	MaxIng         int
 	MinIng         int
 	Svcs           []string // service names per namespace (default s1..s3)
+	DefBackPct     int      // share of ingresses with spec.defaultBackend (default 12) ...
+	DefBackOnlyPct int      // ... and of those, the share that declares nothing else (default 30)
+	CaseDupAnn     bool     // some annotation keys are declared twice, differing by case only
+	SingleDefBack  bool     // at most one ingress with spec.defaultBackend (the default host then has one owner)
 	SparseOK       bool     // focused worlds may be sparse
 	IngDeletePct   int      // share of the ingress ops that delete (default 20)
 	Sparse         bool     // one rule with one path per ingress: few incidental links between ingresses
@@ -296,12 +300,20 @@ func (g *G) genIngress(ns, name string, created int) *world.Obj {
 		}
 		o.Rules = append(o.Rules, r)
 	}
-	if g.P.DefBackend && g.chance("defback", 12) {
+	defBackPct, defBackOnlyPct := 12, 30
+	if g.P.DefBackPct > 0 {
+		defBackPct, defBackOnlyPct = g.P.DefBackPct, g.P.DefBackOnlyPct
+	}
+	if g.P.DefBackend && g.chance("defback", defBackPct) && g.defBackAllowed(o) {
 		p := g.genPath()
 		p.Path = ""
 		p.Type = ""
 		g.fixPort(ns, &p)
 		o.DefBack = &p
+		if g.chance("defbackonly", defBackOnlyPct) {
+			// an ingress that declares nothing but spec.defaultBackend
+			o.Rules = nil
+		}
 	}
 	if g.P.TLS && g.chance("tls", 35) {
 		t := world.TLS{Secret: g.pick("tlssecret", g.secretNames())}
@@ -328,6 +340,14 @@ func (g *G) genIngress(ns, name string, created int) *world.Obj {
 			o.Ann = map[string]string{}
 		}
 		o.Ann[a.Key] = g.pick("annval", a.Values)
+		if g.P.CaseDupAnn && len(a.Values) > 1 && g.chance("casedup", 20) {
+			// the same key once more with another case and another value: annotation keys are case
+			// sensitive, the capitalised one is not a configuration key and must stay without effect
+			if o.RawAnn == nil {
+				o.RawAnn = map[string]string{}
+			}
+			o.RawAnn[world.AnnPrefix+strings.ToUpper(a.Key[:1])+a.Key[1:]] = g.pick("casedupval", a.Values)
+		}
 	}
 	return o
 }
@@ -338,6 +358,19 @@ func (g *G) secretNames() []string {
 		names = append(names, "missing")
 	}
 	return names
+}
+
+// defBackAllowed: with SingleDefBack at most one ingress of the world declares spec.defaultBackend.
+func (g *G) defBackAllowed(o *world.Obj) bool {
+	if !g.P.SingleDefBack {
+		return true
+	}
+	for _, x := range g.W.OfKind(world.KIngress) {
+		if x.DefBack != nil && x.FullName() != o.FullName() {
+			return false
+		}
+	}
+	return true
 }
 
 // applyBundle switches one feature on (the world's theme or a random bundle).
@@ -355,7 +388,7 @@ func (g *G) applyBundle(o *world.Obj) {
 		for _, k := range b.Keys {
 			o.Ann[k.Key] = g.pick("bundleval", k.Values)
 		}
-		if b.Path != "" {
+		if b.Path != "" && len(o.Rules) > 0 {
 			p := g.genPath()
 			p.Path = b.Path
 			g.fixPort(o.NS, &p)
@@ -399,6 +432,9 @@ func (g *G) drawTheme() {
 		}
 	}
 }
+
+// controllers that are not this one; some of their names extend, or are a prefix of, ours
+var foreignControllers = []string{"example.com/other", "example.com/other", world.ControllerName + "-next", world.ControllerName + "/internal", "haproxy-ingress.github.io"}
 
 // classify sets the class selection of an ingress.
 func (g *G) classify(o *world.Obj) {
@@ -447,7 +483,7 @@ func (g *G) genWorld() {
 	g.drawTheme()
 	g.add(&world.Obj{Kind: world.KIngressClass, Name: world.OurClass, Controller: world.ControllerName})
 	if g.P.Classes {
-		g.add(&world.Obj{Kind: world.KIngressClass, Name: "other", Controller: "example.com/other"})
+		g.add(&world.Obj{Kind: world.KIngressClass, Name: "other", Controller: g.pick("foreignctl", foreignControllers)})
 	}
 	if g.P.GlobalCM {
 		cm := &world.Obj{Kind: world.KConfigMap, NS: world.CtlNS, Name: "haproxy-ingress", Data: map[string]string{}}
@@ -475,7 +511,7 @@ func (g *G) genWorld() {
 				}
 				kind := "tls"
 				if g.P.MissingRefs && g.chance("badsecret", 8) {
-					kind = "bad"
+					kind = g.pick("badkind", []string{"bad", "mismatch"})
 				}
 				g.add(&world.Obj{Kind: world.KSecret, NS: ns, Name: n, SecretKind: kind, Cert: g.intn("cert", 0, world.PoolSize()-1) + 0*i})
 			}
@@ -571,7 +607,7 @@ func (g *G) genOp(kinds []string) (world.Op, bool) {
 			n.SecretKind = "tls"
 			n.Cert = g.intn("cert", 0, world.PoolSize()-1)
 			if g.P.MissingRefs && g.chance("tobad", 10) {
-				n.SecretKind = "bad"
+				n.SecretKind = g.pick("badkind", []string{"bad", "mismatch"})
 			}
 			op = world.Op{Op: "update", Obj: n}
 		}
@@ -582,7 +618,7 @@ func (g *G) genOp(kinds []string) (world.Op, bool) {
 		case cur == nil:
 			ctl := world.ControllerName
 			if name == "other" || g.chance("foreignctl", 30) {
-				ctl = "example.com/other"
+				ctl = g.pick("foreignctlname", foreignControllers)
 			}
 			op = world.Op{Op: "create", Obj: &world.Obj{Kind: kind, Name: name, Controller: ctl}}
 		case g.chance("icdel", 40):
@@ -590,7 +626,7 @@ func (g *G) genOp(kinds []string) (world.Op, bool) {
 		default:
 			n := cur.Clone()
 			if n.Controller == world.ControllerName {
-				n.Controller = "example.com/other"
+				n.Controller = g.pick("foreignctlname", foreignControllers)
 			} else {
 				n.Controller = world.ControllerName
 			}
@@ -670,7 +706,14 @@ func (g *G) mutateIngress(cur *world.Obj) *world.Obj {
 	if len(g.P.Bundles) > 0 {
 		nmut = 10
 	}
-	switch g.intn("ingmut", 0, nmut) {
+	mut := g.intn("ingmut", 0, nmut)
+	if g.P.Classes && g.chance("reclassify", 20) {
+		mut = 8 // class changes are what moves an ingress in and out of this controller's set
+	}
+	if len(n.Rules) == 0 && (mut == 1 || mut == 2 || mut == 3 || (mut == 8 && !g.P.Classes)) {
+		mut = 0 // an ingress without rules can only gain one
+	}
+	switch mut {
 	case 9, 10: // switch the feature bundle: drop every bundle key, maybe apply another one (or the same with other values)
 		for _, b := range g.P.Bundles {
 			for _, k := range b.Keys {
@@ -740,8 +783,10 @@ func (g *G) mutateIngress(cur *world.Obj) *world.Obj {
 			break
 		}
 		if n.DefBack != nil {
-			n.DefBack = nil
-		} else {
+			if len(n.Rules) > 0 {
+				n.DefBack = nil
+			}
+		} else if g.defBackAllowed(n) {
 			p := g.genPath()
 			p.Path, p.Type = "", ""
 			g.fixPort(n.NS, &p)
